@@ -76,6 +76,29 @@ def run(tier="quick", seed=1, work=None, replay=None, focus="C15", ncases=None):
             os.makedirs(out_root); open(os.path.join(out_root, "sentinel.txt"), "wb").write(b"sentinel")
             subst = {"@SRC@": src_root, "@OUT@": out_root}
             materialize(src_root, src, subst); materialize(dst_root, dst, subst)
+            if rng.chance(1, 4) and src is not None:
+                # a sparse image ending in a HOLE on the source side; on the other side a fully allocated byte-identical copy
+                # (what sy itself writes: must MATCH), the same data with a longer or shorter trailing hole, or the data alone
+                # (must MISMATCH): a checksum that skips holes must still account for every byte (seeded change C15c)
+                unit = 4096; nblk = rng.pick([8, 16]); size = unit * nblk
+                data_blocks = sorted(set([0] + [rng.below(nblk - 2) for _ in range(rng.range(0, 2))]))
+                chunks = [(b * unit, bytes((x % 255) + 1 for x in rng.bytes(unit))) for b in data_blocks]
+                def put(root, total, sparse=True):
+                    os.makedirs(root, exist_ok=True)
+                    with open(os.path.join(root, "sparse.img"), "wb") as f:
+                        if sparse: f.truncate(total)
+                        else: f.write(b"\0" * total)
+                        for off, d in chunks:
+                            if off + len(d) <= total: f.seek(off); f.write(d)
+                    os.utime(os.path.join(root, "sparse.img"), ns=(BASE_T * 10**9, BASE_T * 10**9))
+                variant = rng.pick(["dense-identical", "longer-hole", "shorter-hole", "data-only", "sparse-identical"])
+                put(src_root, size)
+                if variant == "dense-identical": put(dst_root, size, sparse=False)
+                elif variant == "longer-hole": put(dst_root, size + unit * rng.range(1, 4))
+                elif variant == "shorter-hole": put(dst_root, size - unit)
+                elif variant == "data-only": put(dst_root, (data_blocks[-1] + 1) * unit)
+                else: put(dst_root, size)
+                rep.tag("sparse-pair." + variant)
             flags = []
             mode = rng.pick([None, None, "fast", "standard", "verify", "paranoid"])
             if mode: flags += ["--mode", mode]
